@@ -185,3 +185,13 @@ Proof.
 Qed.
 
 End StP.
+
+(** satisfiability: committing the two-leaf example trie into the empty store and reopening *)
+From Verif Require Import Trie.ProofTop Trie.ProofComplete.
+Example store_example :
+  store_ok ex_H [] /\
+  open_root (commit ex_H [] ex_t) (root ex_H 256 ex_t) = Some ex_t /\
+  open_root (commit ex_H (commit ex_H [] ex_t) (Lf ex_k3 (ex_v 9))) (root ex_H 256 ex_t) = Some ex_t.
+Proof.
+  split; [intros x n Hl; discriminate|]. split; vm_compute; reflexivity.
+Qed.
